@@ -46,10 +46,24 @@ def jobs(tier):
                 if uf:
                     opts["users_first"] = True
                 out.append({"prop": PROP, "cfg": cfg, "order": "asc", "base": "B1", "scripts": A.stamp(sc), "opts": opts})
+    # case-insensitive flavours with case-only renames (the walk fallback compares stored and walked paths)
+    case_hists = [[[["rename", "a", "A"]], []], [[], [["rename", "a", "A"]]], [[["rename", "d", "D"]], []],
+                  [[["rename", "d/b", "d/B"]], []], [[], [["rename", "d/b", "d/B"]]], [[["rename", "a", "A"], ["write", "A"]], []],
+                  [[["write", "a"], ["rename", "a", "A"]], []]]
+    for cfg in ("ci", "pci"):
+        for sc in case_hists:
+            for uf in (False, True):
+                opts = {"storage": True}
+                if uf:
+                    opts["users_first"] = True
+                out.append({"prop": PROP, "cfg": cfg, "order": "asc", "base": "B1", "scripts": A.stamp(sc), "opts": opts})
     return out
 
 
-def _contains(tree, ref):
+def _contains(tree, ref, fold=False):
+    if fold:
+        tree = {p.lower(): v for p, v in tree.items()}
+        ref = {p.lower(): v for p, v in ref.items()}
     return all(p in tree and tree[p] == v for p, v in ref.items())
 
 
@@ -59,7 +73,10 @@ def run_job(job):
     n_eval = 0
     states = 0
     gated = 0
-    fold = not (World.__dict__ and True) and False
+    # a path-addressed, case-insensitive account cannot tell a case-only rename from "same object": after a walk the peer
+    # may keep the old spelling; the walk clause only promises created/modified objects reach the peer (DESIGN 10.3)
+    from ..world import CFGS
+    fold = any(c[0] and not c[1] for c in CFGS[job["cfg"]])
     # base run (undisturbed, same schedule)
     w = drv.make_world(job)
     try:
@@ -106,7 +123,7 @@ def run_job(job):
                         tl, tr = w.tree(0), w.tree(1)
                         if j["lost"]:
                             bad = ("lost:" + ",".join(j["lost"]), j["trees"])
-                        elif not (_contains(tl, ref) and _contains(tr, ref)):
+                        elif not (_contains(tl, ref, fold) and _contains(tr, ref, fold)):
                             bad = ("not-propagated", j["trees"])
                 if bad is not None:
                     sig = "%s:%s:%s" % (mode, bad[0], digest(json.dumps(bad[1], sort_keys=True, default=repr)))
